@@ -277,14 +277,31 @@ def _run(pid, prop, tier, seed, replay, scale, only, scratch, t0):
             for name, start, n in jobs:
                 sd = seed if not tag else seed + 100003
                 futs[ex.submit(run_batch, pid, name, sd, start, n, tier, scratch, e, batch_wall)] = (tag, name)
+        max_total = int(os.environ.get("VERIF_MAX_VIOL_TOTAL", "40"))
+        nviol = 0
+        cancelled = 0
         for f in cf.as_completed(futs):
             tag, name = futs[f]
+            if f.cancelled():
+                continue
             try:
                 for r in f.result():
                     r["tag"] = tag
                     recs.append(r)
+                    if r.get("o", {}).get("violations"):
+                        nviol += 1
+            except cf.CancelledError:
+                continue
             except Exception as e:  # infrastructure
                 infra.append(f"{tag}{name}: {e!r}")
+            if nviol >= max_total and not cancelled:
+                # the tree is refuted many times over: do not start the remaining batches (a tree that hangs in
+                # every call would otherwise burn every step budget before the run can report)
+                for g in futs:
+                    if g.cancel():
+                        cancelled += 1
+        if cancelled:
+            print(f"  ({cancelled} batches not started after {nviol} violating cases)")
     return fold(pid, prop, tier, seed, recs, infra, t0, partial=bool(only) or scale < 1)
 
 
